@@ -97,6 +97,10 @@ def run_execution(scenario, prefix: List[str], opts: Dict[str, Any]) -> Executio
             scheduler.drain(opts.get("drain", 30.0))
         except S.Abort:
             pass
+        except KeyboardInterrupt:
+            # a SIGINT that arrived when no blocking run was there to take it (the run had
+            # already ended for another reason): part of the observation, not a harness fault
+            scheduler.record("stray-keyboardinterrupt")
         except BaseException as err:  # noqa: B036 - scenario bodies catch what they test
             scheduler.errors.append(
                 "scenario body raised %s\n%s" % (repr(err), traceback.format_exc()))
